@@ -40,6 +40,7 @@ Fn = _Ty('Fn')
 Node = _Ty('Node')
 ListNode = _Ty('ListNode')
 MapStr = _Ty('MapStr')
+DictStrObj = _Ty('DictStrObj')
 
 REGISTRY = {'contracts': {}, 'loops': {}, 'specs': {}, 'lemmas': {}, 'fields': {}, 'opaques': {}, 'inlines': set(),
             'externs': {}}
